@@ -1,4 +1,5 @@
 """Helpers for the higher-order / sequential composition properties (C10, C11, C12).
+(kind "subject" = hot source backed by a real reactivex Subject: late subscribers get the terminal at once.)
 
 Owned by the C10-C12 builder.  Three parts:
 
@@ -46,7 +47,7 @@ class TSource(_Logged):
         tls = spec.get("tls") or [spec["tl"]]
         super().__init__(lab, tls[0], name)
         self.kind = spec["kind"]
-        if self.kind not in ("cold", "sync", "hot", "leaky"):
+        if self.kind not in ("cold", "sync", "hot", "leaky", "subject"):
             raise HarnessError(f"source kind {self.kind}")
         self.tls = [[list(m) for m in tl] for tl in tls]
         self.decode = decode or val
@@ -57,6 +58,12 @@ class TSource(_Logged):
         if self.kind == "hot":
             for t, kind, payload in self.tls[0]:
                 lab.sched.schedule_absolute(lab.abs(t), self._mk_hot(kind, payload))
+        if self.kind == "subject":
+            from reactivex.subject import Subject
+
+            self.subject = Subject()
+            for t, kind, payload in self.tls[0]:
+                lab.sched.schedule_absolute(lab.abs(t), self._mk_subject(kind, payload))
 
     # -- logging ------------------------------------------------------------------------
     def _open(self):
@@ -93,6 +100,48 @@ class TSource(_Logged):
 
         return action
 
+    # -- subject-backed hot source -------------------------------------------------------
+    def _mk_subject(self, kind, payload):
+        def action(s, st_=None):
+            self.lab.step()
+            if kind == "N":
+                self.subject.on_next(self.decode(payload))
+            elif kind == "E":
+                self.subject.on_error(Tagged(payload))
+            else:
+                self.subject.on_completed()
+            return Disposable()
+
+        return action
+
+    def _subscribe_subject(self, idx, observer):
+        def rec(kind):
+            r = [self.lab.now(), self.lab.next_seq(), idx, kind, None]
+            self.deliv.append(r)
+            self.emitted += 1
+            if kind != "N" and self.term[idx] is None:
+                self.term[idx] = [r[0], r[1], kind]
+
+        def on_next(v):
+            rec("N")
+            observer.on_next(v)
+
+        def on_error(e):
+            rec("E")
+            observer.on_error(e)
+
+        def on_completed():
+            rec("C")
+            observer.on_completed()
+
+        inner = self.subject.subscribe(on_next, on_error, on_completed)
+
+        def dispose():
+            inner.dispose()
+            self._close(idx)
+
+        return Disposable(dispose)
+
     # -- subscribe ----------------------------------------------------------------------
     def subscribe(self, on_next=None, on_error=None, on_completed=None, *, scheduler=None):
         if self.kind != "leaky":
@@ -106,6 +155,8 @@ class TSource(_Logged):
     def _subscribe_core(self, observer, scheduler=None):
         idx = self._open()
         lab = self.lab
+        if self.kind == "subject":
+            return self._subscribe_subject(idx, observer)
         if self.kind == "hot":
             ent = (idx, observer)
             self.observers.append(ent)
@@ -239,11 +290,26 @@ class SimSrc:
         self.role = role
         self.handles = []
         self.live = []
-        if self.kind == "hot":
+        self.terminated = None  # subject: (kind, payload) once its terminal dispatch has begun
+        self.dispatching_terminal = False
+        self.sub_during_own_terminal = 0
+        self.late_subs = 0
+        if self.kind in ("hot", "subject"):
             for t, k, p in self.tls[0]:
                 sim.at(t, (lambda k=k, p=p: self._fire(k, p)), role)
 
     def _fire(self, k, p):
+        if self.kind == "subject" and k != "N":
+            # a subject is stopped before it dispatches its terminal; its observer list is emptied
+            self.terminated = (k, p)
+            snap = self.live[:]
+            del self.live[:]
+            self.dispatching_terminal = True
+            for h in snap:
+                if h.open:
+                    self._push(h, k, p)
+            self.dispatching_terminal = False
+            return
         for h in self.live[:]:
             if h in self.live:
                 self._push(h, k, p)
@@ -261,7 +327,15 @@ class SimSrc:
         h = _Handle(self, len(self.handles), sim.now)
         self.handles.append(h)
         h.cb = mk(h)
-        if self.kind == "hot":
+        if self.kind == "subject" and self.terminated is not None:
+            # late subscriber of a terminated subject: the terminal is delivered at once, inside subscribe
+            if self.dispatching_terminal:
+                self.sub_during_own_terminal += 1
+            else:
+                self.late_subs += 1
+            self._push(h, self.terminated[0], self.terminated[1])
+            return h
+        if self.kind in ("hot", "subject"):
             self.live.append(h)
             return h
         tl = self.tls[min(h.k, len(self.tls) - 1)]
@@ -483,9 +557,9 @@ def potential_at(op, inner_specs, tick):
             continue
         spec = inner_specs[a["src"]]
         tl = (spec.get("tls") or [spec["tl"]])[0]
-        off = 0 if spec["kind"] == "hot" else a["sub"]
+        off = 0 if spec["kind"] in ("hot", "subject") else a["sub"]
         for t, k, p in tl:
-            if t + off == tick:
+            if t + off == tick or (spec["kind"] == "subject" and k == "E" and t <= tick):
                 if k == "N":
                     els.append(cpay("N", p))
                 elif k == "E":
@@ -609,7 +683,7 @@ def inner_specs(draw, max_inners=4, kinds=("cold", "cold", "sync", "hot"), max_l
         kind = draw(st.sampled_from(list(kinds)))
         tl = draw_timeline(draw, max_len, max_dt, ["i0"], _TERMS, [f"e{i}"])
         tl = _renumber(tl, 100 * i)
-        if kind == "hot":
+        if kind in ("hot", "subject"):
             off = draw(st.integers(0, 6))
             tl = [[t + off, k, p] for t, k, p in tl]
         if kind == "sync" and draw(st.booleans()):
@@ -668,6 +742,12 @@ def saturated_case(draw, max_c=3):
     order = list(range(n_slow)) + list(range(n_slow, n_slow + n_q))
     if draw(st.integers(0, 3)) == 0:
         order.append(draw(st.integers(0, len(inners) - 1)))
+    if draw(st.integers(0, 3)) == 0:
+        # one Subject-backed hot inner selected more often than the limit: the queued subscriptions are started from
+        # inside that subject's own completion dispatch
+        inners[0]["kind"] = "subject"
+        extra = draw(st.sampled_from([1, 2]))
+        order = [0] * (maxc + extra) + ([draw(st.integers(0, len(inners) - 1))] if draw(st.booleans()) else [])
     gap = draw(st.sampled_from([0, 0, 1]))
     t, tl = 0, []
     for i in order:
@@ -686,12 +766,12 @@ def saturated_case(draw, max_c=3):
 
 def draw_second(draw, case):
     """In about a third of the cases ask for a second subscription of the SAME built observable: "after" = 1+d ticks
-    after the first subscription's (reference) terminal, "overlap" = d ticks after the first subscribe.  Hot sources are
+    after the first subscription's (reference) terminal, "overlap" = d ticks after the first subscribe.  Hot and subject-backed sources are
     turned into cold ones so that each subscription is independent and the reference applies per subscription."""
     if draw(st.integers(0, 2)) != 0:
         return case
     for spec in list(case["inners"]) + ([case["outer"]] if "outer" in case else []):
-        if spec["kind"] == "hot":
+        if spec["kind"] in ("hot", "subject"):
             spec["kind"] = "cold"
     case["second"] = {"mode": draw(st.sampled_from(["after", "after", "overlap"])), "d": draw(st.integers(0, 3))}
     return case
